@@ -17,9 +17,14 @@ import shutil
 import subprocess
 import sys
 import tempfile
+import time
 
 HERE = os.path.dirname(os.path.dirname(os.path.abspath(__file__)))
 ALL = ["C%02d" % i for i in range(1, 21)]
+
+
+VSEED = "0"     # --vseed N: run the checks with another VERIF_SEED and do
+DRY = False     # not record anything (robustness of the detection)
 
 
 def run_seed(seed, checks, tier="quick"):
@@ -29,13 +34,22 @@ def run_seed(seed, checks, tier="quick"):
     out = tempfile.mkdtemp(prefix="seedout-")
     res = {}
     try:
-        subprocess.run(["git", "-C", "/repo", "worktree", "add", "--detach",
-                        "-q", wt, "HEAD"], check=True)
+        for attempt in range(6):
+            # (concurrent `git worktree add` calls race on a lock file)
+            p = subprocess.run(["git", "-C", "/repo", "worktree", "add",
+                                "--detach", "-q", wt, "HEAD"],
+                               stderr=subprocess.PIPE)
+            if p.returncode == 0:
+                break
+            time.sleep(0.5 + attempt)
+        else:
+            raise RuntimeError("git worktree add failed: %s" %
+                               p.stderr.decode()[-200:])
         subprocess.run(["git", "-C", wt, "apply",
                         os.path.join(sdir, "patch.diff")], check=True)
         for chk in checks:
             env = dict(os.environ, VERIF_REPO=wt, VERIF_OUT=out,
-                       VERIF_WATCHDOG="900", VERIF_SEED="0")
+                       VERIF_WATCHDOG="900", VERIF_SEED=VSEED)
             p = subprocess.run([os.path.join(HERE, "vcheck"), chk, tier],
                                env=env, stdout=subprocess.PIPE,
                                stderr=subprocess.STDOUT, cwd=HERE)
@@ -62,6 +76,9 @@ def main():
             only = args[i + 1].split(",")
         if a == "--jobs":
             jobs = int(args[i + 1])
+        if a == "--vseed":
+            global VSEED, DRY
+            VSEED, DRY = args[i + 1], True
     seeds = sorted(d for d in os.listdir(os.path.join(HERE, "seeded"))
                    if os.path.exists(os.path.join(HERE, "seeded", d,
                                                   "patch.diff")))
@@ -84,6 +101,8 @@ def main():
             print("%-7s own-check %-4s %s  caught by: %s" % (
                 seed, own, "CAUGHT" if own in caught else "MISSED",
                 ",".join(sorted(caught))))
+            if DRY:
+                continue
             meta_path = os.path.join(HERE, "seeded", seed, "meta.json")
             notes = open(os.path.join(HERE, "seeded", seed,
                                       "notes.md")).read()
@@ -105,9 +124,10 @@ def main():
             }
             with open(meta_path, "w") as fh:
                 json.dump(meta, fh, indent=1)
-    os.makedirs(os.path.dirname(path), exist_ok=True)
-    with open(path, "w") as fh:
-        json.dump(results, fh, indent=1, sort_keys=True)
+    if not DRY:
+        os.makedirs(os.path.dirname(path), exist_ok=True)
+        with open(path, "w") as fh:
+            json.dump(results, fh, indent=1, sort_keys=True)
     missed = [s for s in seeds
               if not (results[s].get(s.split("-")[0], {}).get("exit") == 1)]
     print("seeds: %d, missed by own check: %s" % (len(seeds), missed))
